@@ -22,3 +22,14 @@ VARIANTS = [
 VARIANTS += [
     M('C14', 'seed-zero-treated-as-none', E(RX, "        if n is not None:\n            self.saved = random.getstate()", "        if n:\n            self.saved = random.getstate()"), rule='C14-RESTORE', key='seed-test'),
 ]
+
+VARIANTS += [
+    M('C14', 'header-deleted-from-callers-list', E(RX, "    if skip_header:\n        strings = strings[1:]\n", "    if skip_header and strings:\n        del strings[0]\n"),
+      rule='C14-ARGMUT', key='rexpy_streams'),
+    M('C14', 'examples-sorted-in-place', E(RX, "    r = Extractor(examples, tag=tag, extra_letters=extra_letters,", "    if isinstance(examples, list):\n        examples.sort()\n    r = Extractor(examples, tag=tag, extra_letters=extra_letters,"),
+      rule='C14-ARGMUT', key='extract'),
+    M('C14', 'categorical-levels-as-examples', E(RX, "        strings.extend(list(c.dropna().unique()))", "        strings.extend(list(c.cat.categories if c.dtype.name == 'category' else c.dropna().unique()))"),
+      rule='C14-OBSERVED', key='pdextract'),
+    M('C14', 'refactor-header-skipped-by-copy', E(RX, "    if skip_header:\n        strings = strings[1:]\n", "    if skip_header:\n        strings = list(strings)\n        del strings[0]\n"), kind='refactor'),
+    M('C14', 'refactor-observed-categories', E(RX, "        strings.extend(list(c.dropna().unique()))", "        strings.extend(list(c.cat.remove_unused_categories().cat.categories if c.dtype.name == 'category' else c.dropna().unique()))"), kind='refactor'),
+]
